@@ -37,6 +37,7 @@ FIXES = [
     ("fixed-C11-sdl-escape-passes", "C11", "differs", "decoded in a single pass"),
     ("fixed-C11-leading-separators", "C11", "cook_failed", "optional leading separator"),
     ("fixed-C11-number-exponent-name", "C11", "", "number in SDL is one token"),
+    ("fixed-C01-async-type-resolver", "C01", "", "coroutine type resolvers are awaited"),
     ("fixed-C06-subscription-root-repeated", "C06", "valid_request_refused", "single root field several times"),
 ]
 
